@@ -16,11 +16,22 @@ def isAwaitPaused : Pc → Bool
   | .awaitPaused _ => true
   | _ => false
 
-/-- no interrupt action is installed and the stepping task is not suspended on a pause future -/
-def quiet (c : Cfg) : Bool := c.interrupt.isNone && !isAwaitPaused c.pc
+/-- the wait future of the current WAITING state was interrupted by a pause request and the wait is not yet re-armed -/
+def waitInterrupted (c : Cfg) : Bool :=
+  match c.st with
+  | .waiting _ wf _ _ =>
+      match c.wfs[wf]? with
+      | some (.interrupted _) => true
+      | _ => false
+  | _ => false
+
+/-- a quiet moment: the stepping task is not suspended on a pause future (neither held nor released-but-not-yet-woken), and
+the current wait has not been interrupted by a pause request that the stepping task has still to notice -/
+def quiet (c : Cfg) : Bool := !isAwaitPaused c.pc && !waitInterrupted c
 
 /-- the class of histories of the partial theorem: ticks, pause and play anywhere; wake-up requests (`resume`, completion of
-an awaited future, its done-callback) only at quiet moments; no kill / fail / cancel / call_soon -/
+an awaited future, its done-callback) only at quiet moments (a pause may be *requested* then, but not in effect);
+no kill / fail / cancel / call_soon -/
 def evAllowed (c : Cfg) : Ev → Bool
   | .tick | .pause | .play => true
   | .resume _ | .complete _ _ | .tickCb (.adone _) => quiet c
@@ -1787,10 +1798,9 @@ theorem quiet_inStep {P : Prog} {c d : Cfg} (h : Sim P c d) (hq : quiet c = true
   simp only [quiet, Bool.and_eq_true, Bool.not_eq_true'] at hq
   rcases h with h | h | h
   · exact h
-  · have := h.intSome
-    cases hi : c.interrupt with
-    | none => exact absurd hi this
-    | some i => rw [hi] at hq; simp at hq
+  · obtain ⟨fn, wf, aw, wf', k, hst, _, hw, _⟩ := h.wait
+    have : waitInterrupted c = true := by simp only [waitInterrupted, hst, hw]
+    rw [this] at hq; simp at hq
   · rw [h.1] at hq; simp at hq
 
 /-- one event of the history with pauses and its image in the reference history -/
